@@ -126,6 +126,10 @@ func writeOK(bg *Writer, c *compressor) bool {
 	return true
 }
 
+// gzipFixedHeaderLen is the length of the fixed part of a gzip member
+// header including XLEN: ID1 ID2 CM FLG MTIME(4) XFL OS XLEN(2).
+const gzipFixedHeaderLen = 12
+
 type compressor struct {
 	*gzip.Header
 	gz    *gzip.Writer
@@ -174,6 +178,15 @@ func (c *compressor) writeBlock() {
 
 	b := c.buf.Bytes()
 	i := bytes.Index(b, bgzfExtraPrefix)
+	if 0 <= i && i < gzipFixedHeaderLen {
+		// The prefix bytes can also occur in the MTIME field of the
+		// fixed gzip header; the BC subfield is in the extra field
+		// that follows it.
+		i = bytes.Index(b[gzipFixedHeaderLen:], bgzfExtraPrefix)
+		if i >= 0 {
+			i += gzipFixedHeaderLen
+		}
+	}
 	if i < 0 {
 		c.err = gzip.ErrHeader
 		return
